@@ -144,6 +144,52 @@ class EmptyFamily(Family):
         return jobs
 
 
+class CompareFamily(Family):
+    """related vectors under different junk / capacity / allocator, all operators (C13, C14)"""
+
+    def __init__(self, nlists=22, nscripts=16):
+        super().__init__()
+        self.nlists, self.nscripts = nlists, nscripts
+
+    def extra_lists(self):
+        P, lay_ = gen.P, lay
+        return [
+            [P(lay_.PLAIN, lay_.TU8, 1), P(lay_.PLAIN, lay_.TUINT, 4, 4)],                 # padding inside a memcmp run
+            [P(lay_.PLAIN, lay_.TUINT, 2), P(lay_.PLAIN, lay_.TUINT, 2)],                  # two runs? one run, product order shape
+            [P(lay_.PLAIN, lay_.TBLOB, 2), P(lay_.PLAIN, lay_.TBLOB, 2)],                  # manual fields only
+            [P(lay_.PLAIN, lay_.TU8, 1), P(lay_.FIXED, lay_.TU8, 1)],                      # all-byte fixed list: whole-buffer paths
+            [P(lay_.FIXED, lay_.TU8, 1), P(lay_.FIXED, lay_.TBYTE, 1)],                    # two spans in one run
+            [P(lay_.PLAIN, lay_.TU8, 1), P(lay_.VARYING, lay_.TU8, 1), P(lay_.PLAIN, lay_.TU8, 1)],
+            [P(lay_.PLAIN, lay_.TU8, 1), P(lay_.VARYING, lay_.TU8, 1), P(lay_.PLAIN, lay_.TU8, 1), P(lay_.VARYING, lay_.TBYTE, 1)],
+            [P(lay_.PLAIN, lay_.TUINT, 4), P(lay_.VARYING, lay_.TSINT, 2)],
+            [P(lay_.PLAIN, lay_.TU8, 1, 4), P(lay_.FIXED, lay_.TU8, 1, 2)],                # byte types with AlignAs
+            [P(lay_.FIXED, lay_.TBLOB, 3), P(lay_.PLAIN, lay_.TS8, 1)],
+            [P(lay_.PLAIN, lay_.TSINT, 4), P(lay_.FIXED, lay_.TUINT, 2), P(lay_.PLAIN, lay_.TU8, 1)],
+            [P(lay_.PLAIN, lay_.TBLOB, 1), P(lay_.VARYING, lay_.TU8, 1), P(lay_.PLAIN, lay_.TBYTE, 1)],  # count outside the run
+            [P(lay_.FIXED, lay_.TTRK, 4), P(lay_.PLAIN, lay_.TU8, 1)],
+            [P(lay_.PLAIN, lay_.TU8, 1), P(lay_.PLAIN, lay_.TBLOB, 2), P(lay_.PLAIN, lay_.TU8, 1), P(lay_.PLAIN, lay_.TU8, 1)],
+        ]
+
+    def jobs(self, rng, tier):
+        mult = 1 if tier == "quick" else 5
+        jobs = []
+        Ls = [l for l in self.extra_lists() if lay.wf(l)]
+        seen = {gen.list_key(l) for l in Ls}
+        for l in self.lists(rng, tier, self.nlists):
+            if gen.list_key(l) not in seen:
+                seen.add(gen.list_key(l))
+                Ls.append(l)
+        for li, L in enumerate(Ls):
+            K = [K_DEFAULT, K_PMR][li % 2]
+            scripts = []
+            for _ in range(self.nscripts * mult):
+                lines, st = gen.gen_compare(L, K, rng)
+                self.add_stats(st)
+                scripts.append((gen.script_id(lines), lines, None))
+            jobs.append(Job(L, K, scripts, tag="compare"))
+        return jobs
+
+
 class Multi(Family):
     def __init__(self, *fams):
         super().__init__()
@@ -253,3 +299,5 @@ FAMILIES["C05"] = Multi(HistFamily(nlists=16, nhist=8), SpecialFamily(nlists=6, 
 FAMILIES["C07"] = Multi(HistFamily(nlists=16, nhist=8), SpecialFamily(nlists=6, nscripts=8))
 FAMILIES["C06"] = Multi(HistFamily(nlists=16, nhist=8, allow_overlap=True), SpecialFamily(nlists=6, nscripts=8))
 FAMILIES["C02"] = HistFamily(strict_block=False, nhist=6, nfill=16)
+FAMILIES["C13"] = CompareFamily()
+FAMILIES["C14"] = CompareFamily()
